@@ -35,6 +35,12 @@ def cases(tier, seed):
         # lengthscales below the kernels' `eps` (1e-6), inputs on that scale: still the same formula
         for kern, b in itertools.product(["rbf", "matern0.5", "matern1.5", "matern2.5"], [[], [2]]):
             yield {"kind": "kernel", "kernel": kern, "batch": b, "regime": "below_eps", "coincident": False, "seed": rnd.randrange(10**6)}
+        # lengthscales that dwarf the data spread (k close to 1 everywhere), and inputs that are DIFFERENT VIEWS of one buffer
+        # (same first element, other strides / extents): the same formulas
+        for kern, b in itertools.product(["rbf", "matern0.5", "matern1.5", "matern2.5"], [[], [2]]):
+            yield {"kind": "kernel", "kernel": kern, "batch": b, "regime": "huge", "coincident": False, "seed": rnd.randrange(10**6)}
+            for views in ("step_vs_prefix", "transposed_square", "expanded_row"):
+                yield {"kind": "kernel", "kernel": kern, "batch": b, "regime": "mid", "coincident": False, "views": views, "seed": rnd.randrange(10**6)}
         # sums / products of fast-path kernels: one upstream gradient tensor reaches several hand-written backward functions
         for combo, how in itertools.product([["rbf", "matern2.5"], ["matern1.5", "rbf"], ["matern2.5", "matern0.5", "rbf"], ["rbf", "rbf"]], ["sum", "prod", "grad_outputs"]):
             yield {"kind": "kernel_combo", "parts": combo, "how": how, "seed": rnd.randrange(10**6)}
@@ -120,13 +126,23 @@ def _kernel(case, ctx, g):
     name = case["kernel"]
     K = gpytorch.kernels
     kern = K.RBFKernel(batch_shape=torch.Size(b)) if name == "rbf" else K.MaternKernel(nu=float(name[6:]), batch_shape=torch.Size(b))
-    ls = {"mid": 0.7, "small": 0.08, "large": 6.0, "below_eps": 4e-7}[case["regime"]] * (1 + util.rand(g, *b, 1, 1))
+    ls = {"mid": 0.7, "small": 0.08, "large": 6.0, "below_eps": 4e-7, "huge": 3e6}[case["regime"]] * (1 + util.rand(g, *b, 1, 1))
     kern.lengthscale = ls
     n1, n2, d = 5, 4, 3
     x1 = util.randn(g, *b, n1, d)
     x2 = util.randn(g, *b, n2, d)
     if case["regime"] == "below_eps":
         x1, x2 = x1 * 4e-7, x2 * 4e-7
+    if case.get("views") == "step_vs_prefix":
+        base = util.randn(g, *b, 2 * n1, d)
+        x1, x2 = base[..., ::2, :], base[..., :n2, :]  # same first row, other strides
+    elif case.get("views") == "transposed_square":
+        base = util.randn(g, *b, d, d)
+        x1, x2 = base, base.transpose(-1, -2)  # a square block and its transpose: one storage, one data pointer
+        n1 = n2 = d
+    elif case.get("views") == "expanded_row":
+        row = util.randn(g, *b, 1, d)
+        x1, x2 = row.expand(*b, n1, d), torch.cat([row, util.randn(g, *b, n2 - 1, d)], -2)
     if case["coincident"]:
         x2 = torch.cat([x1[..., :2, :], x2[..., 2:, :]], -2)  # two exactly coincident pairs (r = 0)
     G = util.randn(g, *b, n1, n2)
@@ -145,7 +161,8 @@ def _kernel(case, ctx, g):
             (g_gen,) = torch.autograd.grad((out_gen * G).sum(), raw)
     ctx.expect("fast_path_taken", len(rec) == 2, f"hand-written backward ran {len(rec)} times on the fast path (two backward passes were requested)")
     ctx.close("fast_equals_generic", out_fast, out_gen, (1e-12, 1e-12), cls=cls + ":value")
-    ctx.close("fast_equals_generic", g_fast, g_gen, (1e-9, 1e-9), cls=cls + ":grad")
+    # (with a huge lengthscale the gradient itself is of order r^2 / l^3: compared relatively)
+    ctx.close("fast_equals_generic", g_fast, g_gen, (1e-9, 1e-9) if case["regime"] != "huge" else (1e-40, 1e-6), cls=cls + ":grad")
     # independent re-implementation (C05 oracle formula) differentiated by autograd
     raw2 = raw.detach().clone().requires_grad_(True)
 
